@@ -29,7 +29,12 @@ func TestNumberSetsLoseValues(t *testing.T) {
 	r := evid.R()
 	ctx := context.Background()
 	r.Check(t, r.Scale(300, 12000), 3, func(t *rapid.T) {
-		v := protogen.GenRangeCase(t, true)
+		var v *protogen.ValueCase
+		if rapid.IntRange(0, 3).Draw(t, "names") == 0 {
+			v = protogen.GenReservedNamesCase(t, true)
+		} else {
+			v = protogen.GenRangeCase(t, true)
+		}
 		if !v.Breaking {
 			// the drawn steps re-covered everything they removed: nothing is documented as breaking
 			r.Class("values:steps-cancelled-out")
@@ -53,7 +58,7 @@ func TestDefaultValueChanges(t *testing.T) {
 }
 
 func firstWords(s string) string {
-	for _, p := range []string{"widen start", "widen end", "shrink start", "shrink end", "merge", "split", "add", "delete", "drop", "shift"} {
+	for _, p := range []string{"widen start", "widen end", "shrink start", "shrink end", "merge", "split", "add", "delete", "drop", "shift", "replace", "reorder"} {
 		if len(s) >= len(p) && s[:len(p)] == p {
 			return p
 		}
